@@ -264,7 +264,7 @@ func TestOnce(t *testing.T) {
 
 // traversal kinds over an fp.List[int]; limit bounds the number of cells visited
 // (needed for infinite lists; kinds 0,1,4 are only used on finite lists).
-var travName = []string{"ToSeq", "Foreach", "IsEmpty/Head/Tail walk", "NonEmpty/Unapply walk", "list.Fold", "Head×3 of first cell"}
+var travName = []string{"ToSeq", "Foreach", "IsEmpty/Head/Tail walk", "NonEmpty/Unapply walk", "list.Fold", "Head×3 of first cell", "Tail-first walk (heads read afterwards, last cell first)"}
 
 func traverse(kind int, l fp.List[int], limit int) []int {
 	out := []int{}
@@ -286,6 +286,18 @@ func traverse(kind int, l fp.List[int], limit int) []int {
 		}
 	case 4:
 		return list.Fold(l, out, func(acc []int, v int) []int { return append(acc, v) })
+	case 6:
+		// follow Tail() limit times WITHOUT asking a cell for its head or emptiness first, then read the
+		// heads of the cells that must exist, the last one first (the caller bounds limit by the length)
+		cells := []fp.List[int]{l}
+		for i := 0; i < limit; i++ {
+			cells = append(cells, cells[i].Tail())
+		}
+		hs := make([]int, limit)
+		for i := limit - 1; i >= 0; i-- {
+			hs[i] = cells[i].Head()
+		}
+		return hs
 	default:
 		for i := 0; i < 3; i++ {
 			if l.NonEmpty() {
@@ -303,7 +315,7 @@ func travWant(kind int, xs []int, limit int) []int {
 		}
 		return []int{xs[0]}
 	}
-	if (kind == 2 || kind == 3) && limit < len(xs) {
+	if (kind == 2 || kind == 3 || kind == 6) && limit < len(xs) {
 		return append([]int{}, xs[:limit]...)
 	}
 	return append([]int{}, xs...)
@@ -394,6 +406,24 @@ var listSubjects = []listSubject{
 			}
 			return list.Map(list.Of(idx...), func(i int) int { fns.hit(i, yields); return xs[i] }), map[string]*posCount{"mapping function on element": fns}, true
 		}},
+	{"list.FlatMap", "list.FlatMap(list.Of(0..n-1), i => list.Of(xs[i])) (executions of the function counted per element: it computes the cell, whichever of head and tail is asked for first)",
+		func(xs []int, yields int) (fp.List[int], map[string]*posCount, bool) {
+			fns := newPosCount(len(xs))
+			idx := make([]int, len(xs))
+			for i := range idx {
+				idx[i] = i
+			}
+			return list.FlatMap(list.Of(idx...), func(i int) fp.List[int] { fns.hit(i, yields); return list.Of(xs[i]) }), map[string]*posCount{"function on element": fns}, true
+		}},
+	{"list.FilterMap", "list.FilterMap(list.Of(0..n-1), i => Some(xs[i])) (executions of the function counted per element)",
+		func(xs []int, yields int) (fp.List[int], map[string]*posCount, bool) {
+			fns := newPosCount(len(xs))
+			idx := make([]int, len(xs))
+			for i := range idx {
+				idx[i] = i
+			}
+			return list.FilterMap(list.Of(idx...), func(i int) fp.Option[int] { fns.hit(i, yields); return option.Some(xs[i]) }), map[string]*posCount{"function on element": fns}, true
+		}},
 	{"list.Collect", "list.Collect(one-shot iterator over xs) (iterator next() executions counted per element: a second traversal must replay the memoised cells, not pull the iterator again)",
 		func(xs []int, yields int) (fp.List[int], map[string]*posCount, bool) {
 			nexts := newPosCount(len(xs))
@@ -433,8 +463,13 @@ func listOnce(t *testing.T) {
 				nTrav = G
 				yields = rapid.IntRange(0, 10).Draw(rt, "yields")
 			}
-			ks := rapid.SliceOfN(rapid.SampledFrom([]int{0, 1, 2, 3, 4, 5}), nTrav, nTrav).Draw(rt, "kinds")
+			ks := rapid.SliceOfN(rapid.SampledFrom([]int{0, 1, 2, 3, 4, 5, 6, 6}), nTrav, nTrav).Draw(rt, "kinds")
 			limits := rapid.SliceOfN(rapid.IntRange(0, 8), nTrav, nTrav).Draw(rt, "limits")
+			for i := range ks {
+				if ks[i] == 6 && limits[i] > len(xs) {
+					limits[i] = len(xs) // the Tail-first walk only visits cells that must exist
+				}
+			}
 			var l fp.List[int]
 			var cs map[string]*posCount
 			finite := true
@@ -447,7 +482,7 @@ func listOnce(t *testing.T) {
 			for i := range ks {
 				if !finite {
 					// infinite list: bounded walks only; contents are 0,1,2,...
-					if ks[i] != 2 && ks[i] != 3 && ks[i] != 5 {
+					if ks[i] != 2 && ks[i] != 3 && ks[i] != 5 && ks[i] != 6 {
 						ks[i] = 2 + i%2
 					}
 					if limits[i] > len(xs)+1 {
